@@ -3,7 +3,7 @@
    number of tokens handed out is at most  cap + 1 + q * (floor((b-a)/fi) + 1).
    The "+1" is real: adjustavailableTokens returns early on a full bucket without advancing
    latestTick, so after an idle period one refill tick is credited twice. *)
-From Coq Require Import List ZArith Bool Arith Lia.
+From Coq Require Import List ZArith Bool Arith Lia ZifyBool.
 From TR Require Import model.Throttle model.ThrottleSpec.
 Import ListNotations.
 Open Scope Z_scope.
@@ -12,11 +12,181 @@ Open Scope Z_scope.
 Definition take_times (res : list (Z * Z)) : list Z :=
   flat_map (fun x => if snd x =? 1 then [fst x] else []) res.
 
+(* ------------------------------------------------------------------ *)
+(* arithmetic helpers *)
+
+Lemma div_sub_le : forall fi a b, 1 <= fi -> b / fi - a / fi <= (b - a) / fi + 1.
+Proof.
+  intros fi a b Hfi.
+  assert (E : (b - a) / fi + 1 = (b - a + 1 * fi) / fi) by (rewrite Z.div_add by lia; reflexivity).
+  rewrite E.
+  assert (Ha := Z.div_mod a fi ltac:(lia)).
+  assert (Hr := Z.mod_pos_bound a fi ltac:(lia)).
+  assert (E2 : b / fi - a / fi = (b + (- (a / fi)) * fi) / fi) by (rewrite Z.div_add by lia; lia).
+  rewrite E2.
+  apply Z.div_le_mono; [lia|]. nia.
+Qed.
+
+(* ------------------------------------------------------------------ *)
+(* invariant and potential *)
+
+Definition binv (cap q fi : Z) (b : bucket) (T : Z) : Prop :=
+  b_cap b = cap /\ b_q b = q /\ b_fi b = fi /\ 0 <= b_avail b <= cap /\ b_latest b <= T.
+
+Definition phi (cap q : Z) (b : bucket) (T : Z) : Z :=
+  if b_avail b >=? cap then cap + (if b_latest b <? T then 1 else 0)
+  else Z.min cap (b_avail b + (T - b_latest b) * q).
+
+Ltac dif :=
+  match goal with
+  | |- context [if ?c then _ else _] => destruct c eqn:?
+  end.
+
+Lemma binv_mono : forall cap q fi b T T', binv cap q fi b T -> T <= T' -> binv cap q fi b T'.
+Proof. unfold binv; intros; intuition lia. Qed.
+
+Lemma phi_bounds : forall cap q fi b T, 1 <= q -> binv cap q fi b T -> 0 <= phi cap q b T <= cap + 1.
+Proof.
+  intros cap q fi b T Hq (Hc & Hqq & Hf & Ha & Hl). unfold phi.
+  assert (0 <= (T - b_latest b) * q) by nia.
+  repeat dif; lia.
+Qed.
+
+(* one operation: invariant preserved, potential inequality *)
+Lemma take1_step : forall cap q fi b T t b' k,
+    1 <= cap -> 1 <= q -> 1 <= fi ->
+    binv cap q fi b T -> 0 <= t -> T <= t / fi ->
+    take1 b t = (b', k) ->
+    binv cap q fi b' (t / fi) /\ (k = 0 \/ k = 1) /\
+    phi cap q b' (t / fi) + k <= phi cap q b T + q * (t / fi - T).
+Proof.
+  intros cap q fi [c q' f a l] T t b' k Hcap Hq Hfi (Hc & Hqq & Hf & Ha & Hl) Ht HT.
+  cbn [b_cap b_q b_fi b_avail b_latest] in *. subst c q' f.
+  unfold take1, adjust, current_tick. cbn [b_cap b_q b_fi b_avail b_latest].
+  rewrite Z.quot_div_nonneg by lia.
+  set (T' := t / fi) in *.
+  assert (Hd : 0 <= q * (T' - T)) by nia.
+  assert (Hd1 : T < T' -> q <= q * (T' - T)) by nia.
+  assert (He : 0 <= (T - l) * q) by nia.
+  assert (He1 : l < T -> q <= (T - l) * q) by nia.
+  assert (He0 : l = T -> (T - l) * q = 0) by (intros ->; ring).
+  assert (Hs : (T' - l) * q = q * (T' - T) + (T - l) * q) by ring.
+  unfold binv, phi.
+  repeat (dif; cbn [b_cap b_q b_fi b_avail b_latest] in * ); intros E; inversion E; subst b' k;
+    cbn [b_cap b_q b_fi b_avail b_latest];
+    repeat dif; cbn [b_cap b_q b_fi b_avail b_latest] in *; lia.
+Qed.
+
+Lemma available_step : forall cap q fi b T t b' k,
+    1 <= cap -> 1 <= q -> 1 <= fi ->
+    binv cap q fi b T -> 0 <= t -> T <= t / fi ->
+    available b t = (b', k) ->
+    binv cap q fi b' (t / fi) /\
+    phi cap q b' (t / fi) <= phi cap q b T + q * (t / fi - T).
+Proof.
+  intros cap q fi [c q' f a l] T t b' k Hcap Hq Hfi (Hc & Hqq & Hf & Ha & Hl) Ht HT.
+  cbn [b_cap b_q b_fi b_avail b_latest] in *. subst c q' f.
+  unfold available, adjust, current_tick. cbn [b_cap b_q b_fi b_avail b_latest].
+  rewrite Z.quot_div_nonneg by lia.
+  set (T' := t / fi) in *.
+  assert (Hd : 0 <= q * (T' - T)) by nia.
+  assert (Hd1 : T < T' -> q <= q * (T' - T)) by nia.
+  assert (He : 0 <= (T - l) * q) by nia.
+  assert (He1 : l < T -> q <= (T - l) * q) by nia.
+  assert (He0 : l = T -> (T - l) * q = 0) by (intros ->; ring).
+  assert (Hs : (T' - l) * q = q * (T' - T) + (T - l) * q) by ring.
+  unfold binv, phi.
+  repeat (dif; cbn [b_cap b_q b_fi b_avail b_latest] in * ); intros E; inversion E; subst b' k;
+    cbn [b_cap b_q b_fi b_avail b_latest];
+    repeat dif; cbn [b_cap b_q b_fi b_avail b_latest] in *; lia.
+Qed.
+
+Lemma take_times_cons : forall x l,
+    take_times (x :: l) = (if snd x =? 1 then [fst x] else []) ++ take_times l.
+Proof. reflexivity. Qed.
+
+(* a window that started at t0 (cnt tokens so far), continued from state b whose previous
+   operation happened at time tp *)
+Lemma win_run : forall cap q fi, 1 <= cap -> 1 <= q -> 1 <= fi ->
+  forall ops b tp t0 cnt,
+    binv cap q fi b (tp / fi) -> 0 <= t0 -> t0 <= tp ->
+    sorted_from tp (map bop_time ops) = true ->
+    cnt + phi cap q b (tp / fi) <= cap + 1 + q * (tp / fi - t0 / fi) ->
+    win_from cap q fi t0 cnt (take_times (brun b ops)) = true.
+Proof.
+  intros cap q fi Hcap Hq Hfi.
+  induction ops as [|o r IH]; intros b tp t0 cnt Hinv Ht0 Htp Hs Hb; [reflexivity|].
+  cbn [map sorted_from] in Hs. apply andb_prop in Hs. destruct Hs as [Hle Hs].
+  apply Z.leb_le in Hle.
+  assert (HT : tp / fi <= bop_time o / fi) by (apply Z.div_le_mono; lia).
+  destruct o as [t|t]; cbn [bop_time] in *; cbn [brun].
+  - destruct (available b t) as [b' k] eqn:E.
+    destruct (available_step cap q fi b (tp / fi) t b' k Hcap Hq Hfi Hinv ltac:(lia) HT E) as (Hinv' & Hphi).
+    rewrite take_times_cons. cbn [fst snd]. change (0 =? 1) with false. cbn [app].
+    apply (IH b' t t0 cnt); try assumption; lia.
+  - destruct (take1 b t) as [b' k] eqn:E.
+    destruct (take1_step cap q fi b (tp / fi) t b' k Hcap Hq Hfi Hinv ltac:(lia) HT E) as (Hinv' & Hk & Hphi).
+    rewrite take_times_cons. cbn [fst snd].
+    destruct Hk as [-> | ->].
+    + change (0 =? 1) with false. cbn [app].
+      apply (IH b' t t0 cnt); try assumption; lia.
+    + change (1 =? 1) with true. cbn [app win_from].
+      apply andb_true_intro; split.
+      * apply Z.leb_le.
+        assert (Hp := phi_bounds cap q fi b' (t / fi) Hq Hinv').
+        assert (Hdv := div_sub_le fi t0 t Hfi).
+        assert (q * (t / fi - t0 / fi) <= q * ((t - t0) / fi + 1)) by (apply Z.mul_le_mono_nonneg_l; lia).
+        lia.
+      * apply (IH b' t t0 (cnt + 1)); try assumption; lia.
+Qed.
+
+Lemma windows_run : forall cap q fi, 1 <= cap -> 1 <= q -> 1 <= fi ->
+  forall ops b tp,
+    binv cap q fi b (tp / fi) -> 0 <= tp ->
+    sorted_from tp (map bop_time ops) = true ->
+    windows_ok cap q fi (take_times (brun b ops)) = true.
+Proof.
+  intros cap q fi Hcap Hq Hfi.
+  induction ops as [|o r IH]; intros b tp Hinv Htp Hs; [reflexivity|].
+  assert (Hs0 := Hs).
+  cbn [map sorted_from] in Hs. apply andb_prop in Hs. destruct Hs as [Hle Hs].
+  apply Z.leb_le in Hle.
+  assert (HT : tp / fi <= bop_time o / fi) by (apply Z.div_le_mono; lia).
+  destruct o as [t|t]; cbn [bop_time] in *.
+  - cbn [brun]. destruct (available b t) as [b' k] eqn:E.
+    destruct (available_step cap q fi b (tp / fi) t b' k Hcap Hq Hfi Hinv ltac:(lia) HT E) as (Hinv' & Hphi).
+    rewrite take_times_cons. cbn [fst snd]. change (0 =? 1) with false. cbn [app].
+    apply (IH b' t); try assumption; lia.
+  - (* window starting at this op, if it succeeds *)
+    assert (Hw : win_from cap q fi t 0 (take_times (brun b (BTake t :: r))) = true).
+    { apply (win_run cap q fi Hcap Hq Hfi (BTake t :: r) b t t 0).
+      - eapply binv_mono; eassumption.
+      - lia.
+      - lia.
+      - cbn [map bop_time sorted_from]. rewrite Z.leb_refl. exact Hs.
+      - assert (Hp := phi_bounds cap q fi b (t / fi) Hq (binv_mono _ _ _ _ _ _ Hinv HT)). lia. }
+    cbn [brun] in *. destruct (take1 b t) as [b' k] eqn:E.
+    destruct (take1_step cap q fi b (tp / fi) t b' k Hcap Hq Hfi Hinv ltac:(lia) HT E) as (Hinv' & Hk & Hphi).
+    rewrite take_times_cons in *. cbn [fst snd] in *.
+    assert (Hr : windows_ok cap q fi (take_times (brun b' r)) = true)
+      by (apply (IH b' t); try assumption; lia).
+    destruct Hk as [-> | ->].
+    + change (0 =? 1) with false. cbn [app]. exact Hr.
+    + change (1 =? 1) with true in *. cbn [app] in *. cbn [windows_ok].
+      rewrite Hw, Hr. reflexivity.
+Qed.
+
 Theorem bucket_windows : forall cap q fi ops,
     1 <= cap -> 1 <= q -> 1 <= fi ->
     sorted_from 0 (map bop_time ops) = true ->
     windows_ok cap q fi (take_times (brun (bucket_new cap q fi) ops)) = true.
-Admitted.
+Proof.
+  intros cap q fi ops Hcap Hq Hfi Hs.
+  apply (windows_run cap q fi Hcap Hq Hfi ops (bucket_new cap q fi) 0).
+  - rewrite Z.div_0_l by lia. unfold binv, bucket_new. cbn. lia.
+  - lia.
+  - exact Hs.
+Qed.
 
 (* non-vacuity / tightness: the bound cap + 1 + q is reached (cap = 2, q = 1, fi = 10:
    idle until t = 29: three takes succeed at once, a fourth one nanosecond later, after the
@@ -34,4 +204,26 @@ Theorem window_seconds : forall cap q fi minframes refill_ns n a b,
     rate_ok q fi minframes refill_ns = true ->
     n <= cap + 1 + q * ((b - a) / fi + 1) ->
     (n - (cap + 1 + q)) * refill_ns * 1000000000 <= 1010000001 * minframes * (b - a).
-Admitted.
+Proof.
+  intros cap q fi minframes refill_ns n a b Hq Hfi Hmf Hrf Hab Hrate Hn.
+  unfold rate_ok in Hrate. apply Z.leb_le in Hrate.
+  set (d := b - a) in *.
+  assert (Hd : 0 <= d) by (unfold d; lia).
+  set (m := n - (cap + 1 + q)).
+  assert (Hm : m <= q * (d / fi)) by (unfold m; lia).
+  assert (Hdiv : 0 <= d / fi) by (apply Z.div_pos; lia).
+  assert (Hmul : fi * (d / fi) <= d) by (apply Z.mul_div_le; lia).
+  assert (Hrhs : 0 <= 1010000001 * minframes * d) by nia.
+  destruct (Z_le_gt_dec m 0) as [Hm0 | Hm0].
+  - assert (m * refill_ns * 1000000000 <= 0) by nia. lia.
+  - assert (H1 : m * (refill_ns * 1000000000) <= q * (d / fi) * (refill_ns * 1000000000))
+      by (apply Z.mul_le_mono_nonneg_r; lia).
+    assert (H2 : q * refill_ns * 1000000000 * (d / fi) <= 1010000001 * minframes * fi * (d / fi))
+      by (apply Z.mul_le_mono_nonneg_r; lia).
+    assert (H3 : 1010000001 * minframes * (fi * (d / fi)) <= 1010000001 * minframes * d)
+      by (apply Z.mul_le_mono_nonneg_l; lia).
+    replace (m * refill_ns * 1000000000) with (m * (refill_ns * 1000000000)) by ring.
+    replace (q * (d / fi) * (refill_ns * 1000000000)) with (q * refill_ns * 1000000000 * (d / fi)) in H1 by ring.
+    replace (1010000001 * minframes * fi * (d / fi)) with (1010000001 * minframes * (fi * (d / fi))) in H2 by ring.
+    lia.
+Qed.
